@@ -443,7 +443,6 @@ package secp256k1
 //@
 //@ func (*Point).ScalarMult
 //@   props C04 C10 C17 C18
-//@   unverified ladder proof in progress
 //@   panics !p.isValid
 //@   ensures v.isValid && abs(v) == smul(old(val(s)), old(abs(p))) && result == v
 //@   modifies *v
@@ -511,3 +510,31 @@ package secp256k1
 //@   requires idx <= 15 && tblok(tbl) && onc(sum)
 //@   ensures onc(sum) && abs(sum) == padd(old(abs(sum)), smul(idx, old(abs(tbl[0])))) && result == sum
 //@   modifies sum.x, sum.y, sum.z
+//@
+//@ func (*Scalar).mulGFlooredDiv
+//@   props C04
+//@   noalias k, g
+//@   ensures lift(val(s)) == (lift(old(val(k))) * lift(old(val(g))) + T383) / T384 && result == s
+//@   using prodbound_N(e4(a), e4(b))
+//@   modifies s.m
+//@
+//@ func (*Scalar).splitGLV
+//@   props C04
+//@   ensures val(result0) + val(result1)*LAMBDA == val(s)
+//@   ensures 0 - T128 < slift(val(result0)) && slift(val(result0)) < T128
+//@   ensures 0 - T128 < slift(val(result1)) && slift(val(result1)) < T128
+//@   using glv_bound(lift(val(s)), lift(val(c1)), lift(val(c2)))
+//@   fresh result0, result1
+//@
+//@ func (*Point).mulBeta
+//@   props C04
+//@   panics !p.isValid
+//@   ensures v.isValid && abs(v) == smul(LAMBDA, old(abs(p))) && result == v
+//@   using glv_endo(old(val(p.x)), old(val(p.y)), old(val(p.z)))
+//@   modifies *v
+//@
+//@ func newMulBeta
+//@   props C04
+//@   panics !p.isValid
+//@   ensures result.isValid && abs(result) == smul(LAMBDA, abs(p))
+//@   fresh result
